@@ -215,8 +215,10 @@ pub fn run(tier: Tier) -> i32 {
     // enumerate (k, masks, cfgs, mf)
     let mut counts = Vec::new();
     let mut total = 0usize;
+    // with 4 sources the layout of each source ranges over 2 of the 3 configurations
+    let ncfg_of = |k: usize| if k >= 4 { 2usize } else { NCFG };
     for k in 0..=maxk {
-        let n = 16usize.pow(k as u32) * NCFG.pow(k as u32) * 2;
+        let n = 16usize.pow(k as u32) * ncfg_of(k).pow(k as u32) * 2;
         counts.push((k, total, n));
         total += n;
     }
@@ -231,8 +233,8 @@ pub fn run(tier: Tier) -> i32 {
         for _ in 0..k {
             masks.push((x % 16) as u8);
             x /= 16;
-            cfgs.push((x % NCFG) as u8);
-            x /= NCFG;
+            cfgs.push((x % ncfg_of(k)) as u8);
+            x /= ncfg_of(k);
         }
         let case = Case { masks, cfgs, mf };
         acc.evaluations += 1;
